@@ -21,6 +21,14 @@ CELLS = {"interval": 1, "triangle": 2, "tetrahedron": 3, "quadrilateral": 2}
 GEO_SCALAR = ["CellVolume", "Circumradius", "FacetArea", "CellDiameter", "MinFacetEdgeLength", "MaxFacetEdgeLength", "MinCellEdgeLength", "MaxCellEdgeLength"]
 GEO_OTHER = ["SpatialCoordinate", "FacetNormal", "Jacobian", "JacobianDeterminant", "JacobianInverse", "CellNormal"]
 MATH1 = ["sin", "cos", "exp", "sqrt", "ln", "tanh", "atan", "erf", "sinh", "cosh", "tan", "acos", "asin"]
+CANONICAL_NUMBERING = (
+    "sim.ops.preprocessed_form",
+    "sim.ops.form_data",
+    "sim.ops.fd_integrals_form",
+    "sim.ops.grouped_form",
+    "ufl.algorithms.strip_terminal_data",
+    "ufl.algorithms.renumbering.renumber_indices",
+)
 CFD_FLAGS = [
     "do_apply_function_pullbacks",
     "do_apply_integral_scaling",
@@ -56,6 +64,7 @@ class Planner:
         self.fam = cfg.get("families", {})
         self.poisoned = False
         self.watch = []  # objects whose round trips are worth repeating after comparisons
+        self.renumbered = set()  # forms that hold canonically renumbered coefficients
 
     # ---------------------------------------------------------------- emission
     def new(self):
@@ -961,6 +970,7 @@ class Planner:
                 except BaseException:  # noqa: B036
                     continue
                 self.derived.append((d, rk, len(self.meshes) - 1))
+                self.renumbered.add(d)
         return total
 
     def shape_derivative_form(self, M):
@@ -1271,22 +1281,32 @@ class Planner:
         nder = self.cfg.get("n_derived")
         if nder is None:
             nder = r.randint(0, 4)
+        renumbered = self.renumbered
         for _ in range(nder):
             if not self.forms:
                 break
             f, rank, mi = r.choice(self.forms)
+            n0 = len(self.ops)
             d = self.derive(f, rank, self.meshes[mi], keep_failed=self.cfg.get("keep_failed", False))
+            # compute_form_data / renumber_indices / strip_terminal_data put indices (and, with
+            # do_replace_functions, coefficients) with canonical explicit counts 0..n-1 into
+            # their result: such a form lives in its own numbering and is never combined with
+            # forms that hold automatically counted objects (explicit counts that collide with
+            # automatic ones are outside C12, DESIGN 4.1 and 10.8)
+            if d is not None and (f in renumbered or any(o[0] == "call" and o[2] in CANONICAL_NUMBERING for o in self.ops[n0:])):
+                renumbered.add(d)
             if d is not None and d in self.node.slots and isinstance(self.obj(d), Form):
                 try:
                     rk = len(self.obj(d).arguments())
                 except BaseException:  # noqa: B036
                     continue
                 self.derived.append((d, rk, mi))
-                if r.random() < 0.5:
+                if r.random() < 0.5 and d not in renumbered:
                     self.forms.append((d, rk, mi))
         # combinations of forms of equal rank on one mesh (built and derived ones, early and
         # late ones): the relative creation order of everything they contain enters one signature
-        allf = list(dict.fromkeys([tuple(f) for f in self.forms] + [tuple(f) for f in self.derived]))
+        allf = [f for f in dict.fromkeys([tuple(f) for f in self.forms] + [tuple(f) for f in self.derived]) if f[0] not in renumbered]
+        allf = [f for f in allf if not any(o[0] == "call" and o[1] == f[0] and o[2] in CANONICAL_NUMBERING for o in self.ops)]
         for _ in range(self.cfg.get("n_combined", r.randint(0, 2))):
             if len(allf) < 2:
                 break
